@@ -61,7 +61,7 @@ impl<'s> BitReaderReversed<'s> {
 //@extract file=ruzstd/src/bit_io/bit_reader_reverse.rs impl="^impl<'s> BitReaderReversed" fn=bits_remaining
 //@spec
         requires self.wf(),
-        ensures r == self.remaining(),
+        ensures r == self.remaining(), 0 <= self.extra_bits <= 8 * self.source@.len() + 64 - self.remaining(), self.source@.len() <= 0x1_0000_0000,
 //@end
 
 //@extract file=ruzstd/src/bit_io/bit_reader_reverse.rs impl="^impl<'s> BitReaderReversed" fn=new
